@@ -4,14 +4,23 @@ and writes design-notes/seeded-matrix.txt (which checks catch which change). Scr
 import sys, os, json, glob, shutil, subprocess, concurrent.futures as cf
 props = [f'C{i:02d}' for i in range(1, 21)]
 env = dict(os.environ, GOFLAGS='-mod=mod', GOPROXY='off', GOSUMDB='off', GOTOOLCHAIN='local')
+# MX_RELATED=1: only the properties related to the change's own (cheaper); otherwise all 20
+groups = [['C01', 'C16', 'C10', 'C05', 'C09'], ['C02', 'C08', 'C09', 'C11', 'C07'], ['C03', 'C06', 'C13', 'C14', 'C04'], ['C07', 'C17', 'C20', 'C12', 'C15'], ['C18', 'C19', 'C14', 'C05']]
+def related(prop):
+    out = [prop]
+    for g in groups:
+        if prop in g:
+            out += [p for p in g if p not in out]
+    return out
 labels = sys.argv[1:] or sorted(os.path.basename(os.path.dirname(p)) for p in glob.glob('/verif/seeded/*/patch.diff'))
 def one(label):
     d = f'/root/mut/mx-{label}'
     shutil.rmtree(d, ignore_errors=True)
     shutil.copytree('/repo', d, ignore=shutil.ignore_patterns('.git'))
     subprocess.run('git init -q . && git apply --whitespace=nowarn /verif/seeded/%s/patch.diff' % label, shell=True, cwd=d, env=env, capture_output=True)
-    res = {}
-    for p in props:
+    res = {p: ' ' for p in props}
+    own = json.load(open(f'/verif/seeded/{label}/meta.json'))['property']
+    for p in (related(own) if os.environ.get('MX_RELATED') else props):
         e = dict(env, VERIF_REPO=d, VERIF_SCRATCH=f'{d}/scratch', VERIF_NOREPLAY='1')
         r = subprocess.run(f'./check {p} quick', shell=True, cwd='/verif', env=e, capture_output=True, text=True)
         res[p] = 'X' if (r.returncode == 1 and 'VIOLATION' in r.stdout) else ('.' if r.returncode == 0 else '?')
